@@ -12,7 +12,7 @@ from .proto import Case, parse_output
 WORK = os.path.join(build.VERIF, ".work")
 MODELLED_KINDS = {"kzg10", "c16", "c13", "c14", "c15", "mlpc"}
 MODELLED_SUBS = {("c09", "kzg_setup")}   # case kinds for which the extracted model must answer
-MODELLED_PC_SCHEMES = {"marlin"}
+MODELLED_PC_SCHEMES = {"marlin", "sonic"}
 
 
 def is_modelled(c):
@@ -22,7 +22,9 @@ def is_modelled(c):
         return True
     if c.kind == "pc" and "c12" in c.fields:
         return True
-    if c.kind in ("pc", "c08"):
+    if c.kind == "c08":
+        return c.fields.get("scheme", [""])[0] == "marlin" and "beta" in c.fields
+    if c.kind == "pc":
         return c.fields.get("scheme", [""])[0] in MODELLED_PC_SCHEMES and "beta" in c.fields
     return False
 
